@@ -283,9 +283,9 @@ func (s *JSONDB) newFile(dagFile string, t time.Time, requestID string) (string,
 func (s *JSONDB) latestToday(dagFile string, day time.Time, latestStatusToday bool) (string, error) {
 	var pattern string
 	if latestStatusToday {
-		pattern = fmt.Sprintf("%s.%s*.*.dat", s.prefixWithDirectory(dagFile), day.Format(dateFormat))
+		pattern = fmt.Sprintf("%s.%s*.*.dat", escapeGlob(s.prefixWithDirectory(dagFile)), day.Format(dateFormat))
 	} else {
-		pattern = fmt.Sprintf("%s.*.*.dat", s.prefixWithDirectory(dagFile))
+		pattern = fmt.Sprintf("%s.*.*.dat", escapeGlob(s.prefixWithDirectory(dagFile)))
 	}
 	matches, err := filepath.Glob(pattern)
 	if err != nil || len(matches) == 0 {
@@ -307,7 +307,16 @@ func (s *JSONDB) latest(pattern string, n int) []string {
 }
 
 func (s *JSONDB) globPattern(dagFile string) string {
-	return s.prefixWithDirectory(dagFile) + "*" + extDat
+	return escapeGlob(s.prefixWithDirectory(dagFile)) + "*" + extDat
+}
+
+// escapeGlob escapes the glob metacharacters of a literal path so that a DAG
+// name containing them matches only its own files.
+func escapeGlob(p string) string {
+	for _, c := range []string{`\`, "*", "?", "["} {
+		p = strings.ReplaceAll(p, c, `\`+c)
+	}
+	return p
 }
 
 func (s *JSONDB) prefixWithDirectory(dagFile string) string {
